@@ -173,21 +173,32 @@ const (
 var editNames = [edKinds]string{"len+1", "len-1", "longform", "indefinite", "hugelen", "tagflip", "retag", "int-sign",
 	"int-lead00", "int-leadff", "delete", "dup", "swap", "nest", "empty", "grow", "shrink", "resize"}
 
-// sizes a primitive element is resized to (block-size and point-size neighbours)
-var resizes = []int{1, 2, 8, 15, 16, 17, 31, 33, 64}
+var resizes = []int{1, 15, 16, 17, 33, 2, 8, 31, 64}
 
-var retags = []byte{0x02, 0x03, 0x04, 0x05, 0x06, 0x0c, 0x30, 0x31}
+// universal tags an element is retagged to, and sizes a primitive element is resized to (block-size and
+// point-size neighbours). The quick tier uses the first retagsQuick / resizesQuick entries.
+var retags = []byte{0x02, 0x04, 0x30, 0x05, 0x03, 0x06, 0x0c, 0x31}
+
+const retagsQuick, resizesQuick = 4, 5
 
 var editArgs = [edKinds]int{1, 1, 1, 1, 2, 5, len(retags), 1, 1, 1, 1, 1, 1, 3, 1, 1, 1, len(resizes)}
 
 // editsPerNode is the number of (kind, arg) pairs tried at every node.
-var editsPerNode = func() int {
-	s := 0
-	for _, a := range editArgs {
-		s += a
+var editsPerNode int
+
+// setEditBreadth fixes the breadth of the DER-aware edits for the tier.
+func setEditBreadth(thorough bool) {
+	editArgs[edRetag], editArgs[edResize] = retagsQuick, resizesQuick
+	if thorough {
+		editArgs[edRetag], editArgs[edResize] = len(retags), len(resizes)
 	}
-	return s
-}()
+	editsPerNode = 0
+	for _, a := range editArgs {
+		editsPerNode += a
+	}
+}
+
+func init() { setEditBreadth(false) }
 
 // emitForest serialises a forest with one edit applied. ok is false when the edit
 // does not apply at that node (e.g. INTEGER edits on a non-INTEGER).
